@@ -48,6 +48,17 @@ func main() {
 		cmdCheck(os.Args[2:])
 	case "frame":
 		cmdFrame(os.Args[2:])
+	case "ssa": // debugging aid: print the SSA form of a function as the generator sees it
+		p, err := loadProgram("/repo", verifDir())
+		if err != nil {
+			fmt.Fprintln(os.Stderr, err)
+			os.Exit(2)
+		}
+		for k, fn := range p.funcs {
+			if len(os.Args) > 2 && strings.Contains(k, os.Args[2]) {
+				fn.WriteTo(os.Stdout)
+			}
+		}
 	case "selftest":
 		cmdSelftest(os.Args[2:])
 	default:
